@@ -47,6 +47,12 @@ def check_enclose(plain, source, pos, ss, mode, dmp):
         out = annot.annotate(plain, ss, source, mode, dmp, marks)
     except Exception as e:  # noqa: BLE001
         return [("raise", short_exc(e))], 0
+    try:
+        out_it = annot.annotate(plain, ss, source, mode, dmp, marks, one_shot=True)
+    except Exception as e:  # noqa: BLE001
+        return [("iterator-raise", short_exc(e))], 0
+    if out_it != out:
+        return [("iterator-differs", f"annotations passed as a one-shot iterator give {out_it!r}, as a list {out!r}")], 0
     text = plain if source is None else source
     order, clean = annot.clean_annotations(ss, marks)
     res = []
@@ -102,7 +108,7 @@ def check_updater(a, b, dmp):
 
 
 def lab_is_alignment(res):
-    return all(lab in ("enclose", "order") for lab, _ in res)
+    return all(lab in ("enclose", "order", "iterator-differs") for lab, _ in res)
 
 
 LONG_PLAINS = [
